@@ -318,6 +318,14 @@ Elem(m0, name) ==      \* m0: the element item already removed from ctl
               ELSE IF IsF(p[1]) THEN Push(p[2], VI(1))
               ELSE IF IsS(p[1]) THEN Push(p[2], VI(IF p[1].s # <<>> THEN 1 ELSE 0))
               ELSE PushRes(p[2], Mo("bool", p[1]))
+      \* a function times a number STORES that number as the function's arity (used by † ß x and printing;
+      \* a call that passes its arguments explicitly -- map, filter, sort, reduce, modifiers -- ignores it)
+      [] name = "mul" /\ LET p == PopN(m0, 2) IN (IsF(p[1][1]) /\ IsI(p[1][2])) \/ (IsF(p[1][2]) /\ IsI(p[1][1])) ->
+           LET p == PopN(m0, 2)
+               fv == IF IsF(p[1][1]) THEN p[1][1] ELSE p[1][2]
+               n == IF IsF(p[1][1]) THEN p[1][2].i ELSE p[1][1].i
+           IN IF fv.f.kind # "lam" \/ n < 0 \/ n > 6 THEN Undef(m0, "stored-arity-domain")
+              ELSE Push(p[2], [f |-> [fv.f EXCEPT !.sar = n]])
       [] name \in DyadKeys ->
            LET p == PopN(m0, 2) IN PushRes(p[2], Dyad(name, p[1][2], p[1][1]))
       \* head / tail extract push TWO results
